@@ -1,4 +1,4 @@
-import ApolloModel.Proofs.ParserTree12
+import ApolloModel.Proofs.ParserTree16
 import ApolloModel.Proofs.AstDocument3
 import ApolloModel.Proofs.AstText7
 import ApolloModel.Proofs.AstText8
@@ -300,6 +300,8 @@ of a node, whatever the byte offsets and junk tokens.
 Stage (i), the type entry point, is complete: `type_cst_of_accepted`, `type_pipeline_agrees`, `pipeline_print_parse_type`.
 Stage (ii), values (all kinds, lists and objects of any nesting, strings through the C06 decoder): `value_pipeline`,
 `pipeline_print_parse_value`; `string_tokens_decode` is the lexer fact it needs.
+Stage (iii), first half: `arguments_pipeline`, `directives_pipeline` (parser + conversion), and the conversion half for
+selections, `selection_conversion` (the parser half for selection sets is not done yet).
 -/
 section Pipeline
 open Apollo.Parse Apollo.Rowan
@@ -374,6 +376,42 @@ theorem pipeline_print_parse_value (n : Nat) (c p : Bool) (s s' : PState) (st : 
       ∀ (R : List FromCst.Loc) (o : Nat) (hp : ∀ y ∈ nameRanges ev o, y ∈ R),
         ∃ l, FromCst.cValue (FromCst.size ev) ⟨(ev, o), hp⟩ = some (v0, l) :=
   Parse.pipeline_print_parse_value n c p s s' st h hnd hne v0 hwf cs ht hspell
+
+/-- **Stage (iii), arguments.**  An error-free run of `argument.rs::arguments` entered on `(` consumed the tokens
+    `tArguments args` (`args ≠ []`, values well-formed for the context) and appended ONE element besides junk, the node
+    `ARGUMENTS[( ARGUMENT[NAME : value]+ )]`; on every parent node whose ARGUMENTS child is that element,
+    `collect_opt(x.arguments(), …)` of from_cst.rs returns `args`. -/
+theorem arguments_pipeline (n : Nat) (c : Bool) (s s' : PState) (st : Parse.St s) (hq : Parse.HeadK .lParen (Parse.Toks s))
+    (h : (Parse.arguments n c).run s = .ok () s') (hnd : ¬ Parse.Doomed s') :
+    ∃ cs added args ea, Parse.Toks s = cs ++ Parse.Toks s' ∧ s'.builder.children = s.builder.children ++ added ∧ args ≠ [] ∧
+      (Parse.sig cs).map Parse.astOfV = (tArguments args).map some ∧ Parse.argsOk c args ∧ Parse.sigE added = [ea] ∧
+      FromCst.ArgsNode args ea ∧
+      ∀ (k : SK) (pcs : List Elem) (m : Nat), (Parse.sigE pcs).find? (FromCst.nodeP (· == "ARGUMENTS")) = some ea →
+        ea ∈ Parse.sigE pcs → FromCst.size (.node k pcs) ≤ m + 1 →
+        ∀ (R : List FromCst.Loc) (o : Nat) (hp : ∀ y ∈ nameRanges (.node k pcs) o, y ∈ R),
+          ∃ l, FromCst.argumentsOf m ⟨(.node k pcs, o), hp⟩ = some (args, l) :=
+  Parse.arguments_pipeline n c s s' st hq h hnd
+
+/-- **Stage (iii), directives.**  The same for `directive.rs::directives` entered on `@`: tokens `tDirectives ds`, ONE
+    element `DIRECTIVES[DIRECTIVE[@ NAME Arguments?]+]`, and `collect_opt(x.directives(), …)` returns `ds`. -/
+theorem directives_pipeline (n : Nat) (c : Bool) (s s' : PState) (st : Parse.St s) (hq : Parse.HeadK .at (Parse.Toks s))
+    (h : (Parse.directives n c).run s = .ok () s') (hnd : ¬ Parse.Doomed s') :
+    ∃ cs added ds ed, Parse.Toks s = cs ++ Parse.Toks s' ∧ s'.builder.children = s.builder.children ++ added ∧
+      (Parse.sig cs).map Parse.astOfV = (tDirectives ds).map some ∧ Parse.dirsOk c ds ∧ Parse.sigE added = [ed] ∧
+      FromCst.DirsNode ds ed ∧
+      ∀ (k : SK) (pcs : List Elem) (m : Nat), (Parse.sigE pcs).find? (FromCst.nodeP (· == "DIRECTIVES")) = some ed →
+        ed ∈ Parse.sigE pcs → FromCst.size (.node k pcs) ≤ m + 1 →
+        ∀ (R : List FromCst.Loc) (o : Nat) (hp : ∀ y ∈ nameRanges (.node k pcs) o, y ∈ R),
+          ∃ l, FromCst.directivesOf m ⟨(.node k pcs, o), hp⟩ = some (ds, l) :=
+  Parse.directives_pipeline n c s s' st hq h hnd
+
+/-- **Stage (iii), selections — the conversion half.**  `impl Convert for cst::Selection` on a tree of the shape
+    `SelTree sel` (FIELD[ALIAS? NAME ARGUMENTS? DIRECTIVES? SELECTION_SET?], FRAGMENT_SPREAD[... FRAGMENT_NAME DIRECTIVES?],
+    INLINE_FRAGMENT[... TYPE_CONDITION? DIRECTIVES? SELECTION_SET], any nesting, junk tokens anywhere between children)
+    returns `sel`.  (That selection.rs builds these shapes is the part of stage (iii) still to do.) -/
+theorem selection_conversion (n : Nat) (sel : Sel) (e : Elem) (h : FromCst.SelTree sel e) (hs : FromCst.size e ≤ n) :
+    ∀ (R : List FromCst.Loc) (o : Nat) (hp : ∀ y ∈ nameRanges e o, y ∈ R), ∃ l, FromCst.cSelection n ⟨(e, o), hp⟩ = some (sel, l) :=
+  FromCst.cSelection_selTree n sel e h hs
 
 end Pipeline
 
